@@ -47,7 +47,7 @@ def gen_valid_files(rng, n):
         cx.n = 100 * i          # distinct entity names per file, except the deliberately shared ones below
         f = T.gen_file(cx, f"v{i}.f90", mods, allow_program=(i == 0))
         ev = T.render_file(cx, f)
-        files.append((f, ev, "\n".join(t for _, t in ev) + "\n"))
+        files.append((f, ev, "\n".join(t for _, t in ev if t is not None) + "\n"))
     return files
 
 
